@@ -20,7 +20,8 @@ def configs(tier, seed=0):
     for iface in ['exp', 'legacy']:
         for form in ['cov', 'prec']:
             for d in [2, 3] + ([4] if tier == 'thorough' else []):
-                for mean in ['zero', 'sym']:
+                for mean in ['zero', 'sym', 'scalar0', 'scalarsym']:
+                    # scalar0 / scalarsym: the mean is given as ONE number that is broadcast over the geometry (its stored length is 1, the data's is d)
                     out.append({'key': '%s/gaussian/%s/d%d/mean-%s' % (iface, form, d, mean), 'kind': 'pair', 'iface': iface, 'family': 'Gaussian', 'form': form, 'dim': d, 'mean': mean})
         for bc in ['zero', 'periodic', 'neumann']:
             for order in [0, 1, 2]:
@@ -28,6 +29,9 @@ def configs(tier, seed=0):
                     if (order == 2 and bc == 'neumann') or (order == 0 and bc != 'zero'):
                         continue     # the GMRF's own rank / log-determinant are defective there (KF-C20-gmrf-*): no meaningful target density
                     out.append({'key': '%s/gmrf/%s/o%d/d%d' % (iface, bc, order, d), 'kind': 'pair', 'iface': iface, 'family': 'GMRF', 'bc': bc, 'order': order, 'dim': d, 'mean': 'sym'})
+                    if bc == 'zero' and order == 1:
+                        out.append({'key': '%s/gmrf/%s/o%d/d%d/mean-scalar0' % (iface, bc, order, d), 'kind': 'pair', 'iface': iface, 'family': 'GMRF', 'bc': bc, 'order': order, 'dim': d,
+                                    'mean': 'scalar0'})
     for bad in ['cov-inv-square', 'prec-2s', 'prec-square', 'sqrtprec-sqrt', 'two-occurrences', 'vector-gamma', 'normal-prior', 'cov-identity', 'prec-reciprocal']:
         out.append({'key': 'exp/reject/%s' % bad, 'kind': 'reject', 'iface': 'exp', 'bad': bad})
     for bad in ['vector-gamma', 'normal-prior', 'cov-inv-square', 'prec-2s']:
@@ -48,7 +52,14 @@ def build_target(c, cfg):
     d = cfg['dim']
     B = 8
     b = cm.boxed(c, c.reals('b', d), B)
-    mean = cm.boxed(c, c.reals('mu', d), B) if cfg.get('mean') == 'sym' else np.zeros(d)
+    if cfg.get('mean') == 'sym':
+        mean = cm.boxed(c, c.reals('mu', d), B)
+    elif cfg.get('mean') == 'scalar0':
+        mean = 0
+    elif cfg.get('mean') == 'scalarsym':
+        mean = cm.boxed(c, c.reals('mu', 1), B)[0]
+    else:
+        mean = np.zeros(d)
     alpha = core.positive(c, 'alpha', hi=8)
     beta = core.positive(c, 'beta', hi=8)
     s = D.Gamma(alpha, beta, name='s')
